@@ -85,6 +85,7 @@ pub fn ps(pubs: &[usize], subs: usize, order: &str, faults: bool, close: bool, h
         faults,
         close,
         hostile,
+        any_order: false,
     }
 }
 
@@ -164,6 +165,7 @@ pub fn rr(tag: &str, requestors: Vec<Vec<ReqKind>>, repliers: Vec<Vec<ReplyMode>
         depart,
         hostile,
         owner,
+        any_order: false,
     }
 }
 
@@ -225,6 +227,28 @@ fn routing_families(tier: &str, bound: usize, out: &mut Vec<Spec>) {
     out.push(Spec { scn: Scn::Rr(rr("reject2", vec![plain(1)], vec![vec![], vec![], vec![]], "mid", vec![0], false, false, false, false, "C10")), bound });
     for ranks in perms(2) {
         out.push(Spec { scn: Scn::Rr(rr("rebind-two", vec![plain(1), plain(1)], vec![vec![], vec![]], "mid", ranks, false, false, true, false, "C10")), bound: bound.saturating_sub(if thorough { 0 } else { 1 }) });
+    }
+}
+
+/// every registration order is a scheduler choice (instead of the fixed sf / pf / il lists)
+fn any_order_families(what: &str, bound: usize, out: &mut Vec<Spec>) {
+    if what == "ps" || what == "all" {
+        for (pubs, subs) in [(&[1usize, 1][..], 2usize), (&[2][..], 2)] {
+            let mut p = ps(pubs, subs, "sf", false, false, false);
+            p.any_order = true;
+            p.name = p.name.replace(":sf", ":any");
+            out.push(Spec { scn: Scn::Ps(p), bound });
+        }
+    }
+    if what == "rr" || what == "all" {
+        let mut a = rr("two", vec![plain(1), plain(1)], vec![vec![]], "rf", vec![0, 1], false, false, false, false, "C02");
+        a.any_order = true;
+        a.name = a.name.replace(":rf:", ":any:");
+        out.push(Spec { scn: Scn::Rr(a), bound });
+        let mut b = rr("rebind", vec![plain(1)], vec![vec![], vec![]], "rf", vec![0], false, false, true, false, "C10");
+        b.any_order = true;
+        b.name = b.name.replace(":rf:", ":any:");
+        out.push(Spec { scn: Scn::Rr(b), bound });
     }
 }
 
@@ -332,6 +356,7 @@ fn families_base(id: &str, tier: &str) -> Vec<Spec> {
             let b = if thorough { 5 } else { 3 };
             ps_set(&[(&[2], 1), (&[2], 2), (&[2, 2], 1), (&[2, 2], 2), (&[1], 3), (&[0, 1], 1)], false, false, false, b, &mut out);
             burst_families(&mut out);
+            any_order_families("ps", b.saturating_sub(1), &mut out);
             out.retain(|s| matches!(s.scn, Scn::Ps(_)));
             if thorough {
                 ps_set(&[(&[3], 2), (&[2, 1], 3), (&[3, 3], 2)], false, false, false, 4, &mut out);
@@ -344,6 +369,7 @@ fn families_base(id: &str, tier: &str) -> Vec<Spec> {
         "C02" | "C10" => {
             routing_families(tier, if thorough { 4 } else { 3 }, &mut out);
             burst_families(&mut out);
+            any_order_families("rr", if thorough { 3 } else { 2 }, &mut out);
             out.retain(|s| matches!(s.scn, Scn::Rr(_)));
         }
         "C08" => fault_families(tier, if thorough { 5 } else { 4 }, &mut out),
@@ -352,6 +378,7 @@ fn families_base(id: &str, tier: &str) -> Vec<Spec> {
             ps_set(&[(&[2], 1), (&[2], 2), (&[2, 2], 1), (&[2, 2], 2), (&[1], 3)], false, false, false, b, &mut out);
             routing_families(tier, b, &mut out);
             burst_families(&mut out);
+            any_order_families("all", b.saturating_sub(1), &mut out);
             one_sided(b, &mut out);
             shutdown_families(b.saturating_sub(1), &mut out);
             if thorough {
